@@ -9,7 +9,8 @@ Require Import Proofs.MerkleProofs Proofs.L2Lemmas.
 (* ------------------------------------------------------------------------------------ *)
 (* 1. the two entry points bound the amount to a uint64                                   *)
 (* ------------------------------------------------------------------------------------ *)
-Lemma two64_same : L2.two64 = L1.two64.
+Definition two64 : Z := 18446744073709551616.
+Lemma two64_same : two64 = L1.two64.
 Proof. reflexivity. Qed.
 
 Lemma l1_deposit_Some c e s sender b to d amt data s' r :
@@ -38,18 +39,14 @@ Proof.
 Qed.
 
 Lemma withdraw_bound c s sender to d amt s' r :
-  L2.withdraw c s sender to d amt = Some (s', r) → (0 < amt < L2.two64)%Z.
+  L2.withdraw c s sender to d amt = Some (s', r) → (0 < amt < two64)%Z.
 Proof.
-  unfold L2.withdraw. intros Hx.
-  apply bind_Some in Hx as (a & _ & Hx).
-  case_bool_decide; [discriminate|].
-  destruct (valid_denom d && (0 <? amt)%Z && (amt <? L2.two64)%Z) eqn:Hv; [|discriminate].
-  apply andb_true_iff in Hv as [Hv Hlt]. apply andb_true_iff in Hv as [_ Hgt].
-  apply Z.ltb_lt in Hlt, Hgt. lia.
+  intros Hx. pose proof (withdraw_uint64 _ _ _ _ _ _ _ _ Hx) as Hlt.
+  apply withdraw_Some in Hx as (?&?&?&?&_&_&_&Hpos&_). unfold two64. lia.
 Qed.
 
 Lemma c04_l2_withdraw_bounded c s sender to d amt s' r :
-  L2.step c s (L2.MWithdraw sender to d amt) = (s', L2.Ok r) → (0 < amt < L2.two64)%Z.
+  L2.step c s (L2.MWithdraw sender to d amt) = (s', L2.Ok r) → (0 < amt < two64)%Z.
 Proof.
   unfold L2.step. cbn [L2.handle].
   destruct (L2.withdraw c s sender to d amt) as [[s1 r1]|] eqn:Hw; [|discriminate].
@@ -63,7 +60,7 @@ Qed.
 (* A relayed deposit carries a recipient string and an amount that L1 accepts: the L1 entry
    point requires a non-empty [to] and an amount below 2^64 (c04_l1_deposit_bounded); L2's own
    validation of MsgFinalizeTokenDeposit checks neither. *)
-Definition relayed_ok (f : L2.fdep) : Prop := L2.fd_to f ≠ [] ∧ (L2.fd_amt f < L2.two64)%Z.
+Definition relayed_ok (f : L2.fdep) : Prop := L2.fd_to f ≠ [] ∧ (L2.fd_amt f < two64)%Z.
 
 (* every deposit message of the history - also those wrapped in ExecuteMessages - is such *)
 Fixpoint faithful (m : L2.msg) : Prop :=
@@ -88,7 +85,7 @@ Record wrec_fields (c : L2.cfg) (s : L2.l2state) (w : L2.wrec) : Prop := {
   wf_denom : valid_denom (L2.w_denom w) = true;
   wf_pair : L2.pairs s !! L2.w_denom w = Some (L2.w_base w);
   wf_base : valid_denom (L2.w_base w) = true;
-  wf_amt : (0 ≤ L2.w_amt w < L2.two64)%Z;
+  wf_amt : (0 ≤ L2.w_amt w < two64)%Z;
   wf_user : L2.w_refund w = false →
             (0 < L2.w_amt w)%Z ∧ is_Some (L2.resolve c (L2.w_from w));
   wf_seq : (1 ≤ L2.w_seq w < L2.next_l2 s)%N;
@@ -123,67 +120,6 @@ Proof.
   rewrite Hw. eapply Forall_impl; [exact I3|]. intros w. by apply wrec_fields_ext.
 Qed.
 
-(* the exact effect of a deposit message on the denom map and the withdrawal log *)
-Lemma finalize_deposit_pairs c s m s' r :
-  L2.finalize_deposit c s m = Some (s', r) →
-  L2.fdep_valid c m = true ∧
-  ((r = L2.RNoop ∧ s' = s) ∨
-   (L2.pairs s' = match L2.pairs s !! L2.fd_denom m with
-                  | Some _ => L2.pairs s
-                  | None => <[L2.fd_denom m := L2.fd_base m]> (L2.pairs s)
-                  end ∧
-    ((L2.wlog s' = L2.wlog s ∧ L2.next_l2 s' = L2.next_l2 s) ∨
-     (∃ base, L2.pairs s' !! L2.fd_denom m = Some base ∧
-              L2.next_l2 s' = (L2.next_l2 s + 1)%N ∧
-              L2.wlog s' = {| L2.w_seq := L2.next_l2 s; L2.w_from := L2.fd_to m; L2.w_to := L2.fd_from m;
-                              L2.w_denom := L2.fd_denom m; L2.w_base := base; L2.w_amt := L2.fd_amt m;
-                              L2.w_refund := true |} :: L2.wlog s)))).
-Proof.
-  unfold L2.finalize_deposit.
-  destruct (L2.fdep_valid c m) eqn:Hv; [|discriminate]. cbn [negb].
-  destruct (L2.is_executor c s (L2.fd_sender m)) eqn:He; [|discriminate]. cbn [negb].
-  destruct (L2.fd_seq m <? L2.next_l1 s)%N eqn:Hlt.
-  { intros [= <- <-]. split; [done|left; done]. }
-  destruct (L2.next_l1 s <? L2.fd_seq m)%N eqn:Hgt; [discriminate|].
-  destruct (match L2.resolve c (L2.fd_to m) with
-            | Some a => L2.safe_deposit c s a (L2.fd_denom m) (L2.fd_amt m)
-            | None => (s, false) end) as [s1 dep_ok] eqn:Hdep.
-  assert (F1 : frame_bk s s1).
-  { destruct (L2.resolve c (L2.fd_to m)); [eapply safe_deposit_frame; eauto|].
-    injection Hdep as <- <-. apply frame_bk_refl. }
-  destruct F1 as (F1a & F1b & F1c & F1d & F1e & F1f & F1g & F1h & F1i).
-  set (s2 := L2.set_next_l1 s1 (L2.next_l1 s1 + 1)).
-  set (s3 := match L2.pairs s2 !! L2.fd_denom m with
-             | Some _ => s2
-             | None => L2.set_pairs s2 (<[L2.fd_denom m:=L2.fd_base m]> (L2.pairs s2)) end).
-  assert (F3 : L2.pairs s3 = match L2.pairs s !! L2.fd_denom m with
-                             | Some _ => L2.pairs s
-                             | None => <[L2.fd_denom m := L2.fd_base m]> (L2.pairs s)
-                             end ∧ L2.next_l2 s3 = L2.next_l2 s ∧ L2.wlog s3 = L2.wlog s).
-  { subst s3 s2. cbn [L2.set_next_l1 L2.pairs]. rewrite F1c.
-    destruct (L2.pairs s !! L2.fd_denom m); cbn; rewrite ?F1c; auto. }
-  destruct F3 as (F3a & F3b & F3c).
-  destruct (if dep_ok && L2.hook_nonempty (L2.fd_hook m) then L2.run_hook c s3 (L2.fd_hook m) else (s3, true))
-    as [s4 hook_ok] eqn:Hhook.
-  assert (F4 : frame_bk_seqs s3 s4).
-  { destruct (dep_ok && L2.hook_nonempty (L2.fd_hook m)); [eapply run_hook_frame; eauto|].
-    injection Hhook as <- <-. apply frame_bk_weaken, frame_bk_refl. }
-  destruct F4 as (F4a & F4b & F4c & F4d & F4e & F4f & F4g & F4h).
-  destruct (dep_ok && hook_ok) eqn:Hok.
-  { intros [= <- <-]. split; [done|]. right. cbn. split; [congruence|]. left. split; congruence. }
-  intros Hrest. apply bind_Some in Hrest as (s5 & Hs5 & Hrest).
-  apply bind_Some in Hrest as (base & Hbase & Hrest). injection Hrest as <- <-.
-  assert (F5 : frame_bk s4 s5).
-  { destruct dep_ok; [|injection Hs5 as <-; apply frame_bk_refl].
-    apply bind_Some in Hs5 as (a & _ & Hs5). apply bind_Some in Hs5 as (b1 & _ & Hs5).
-    apply bind_Some in Hs5 as (b2 & _ & Hs5). injection Hs5 as <-. apply frame_bk_set. }
-  destruct F5 as (F5a & F5b & F5c & F5d & F5e & F5f & F5g & F5h & F5i).
-  split; [done|]. right. cbn. split; [congruence|]. right.
-  exists base. split; [congruence|]. split; [congruence|].
-  replace (L2.next_l2 s5) with (L2.next_l2 s) by congruence.
-  replace (L2.wlog s5) with (L2.wlog s) by congruence. reflexivity.
-Qed.
-
 Lemma fdep_valid_facts c m : L2.fdep_valid c m = true →
   L2.fd_from m ≠ [] ∧ valid_denom (L2.fd_denom m) = true ∧ (0 ≤ L2.fd_amt m)%Z ∧
   valid_denom (L2.fd_base m) = true.
@@ -198,6 +134,150 @@ Proof.
   auto.
 Qed.
 
+(* appending one record with the right fields at the next sequence *)
+Lemma inv_push c s w :
+  inv c s → L2.w_seq w = L2.next_l2 s →
+  L2.w_from w ≠ [] → L2.w_to w ≠ [] → valid_denom (L2.w_denom w) = true →
+  L2.pairs s !! L2.w_denom w = Some (L2.w_base w) → (0 ≤ L2.w_amt w < two64)%Z →
+  (L2.w_refund w = false → (0 < L2.w_amt w)%Z ∧ is_Some (L2.resolve c (L2.w_from w))) →
+  inv c (L2.push_withdrawal s w) ∧ ext s (L2.push_withdrawal s w).
+Proof.
+  intros (I1 & I2 & I3) Hs Hf Ht Hd Hp Ha Hu.
+  assert (E : ext s (L2.push_withdrawal s w)) by (split; cbn; [auto|lia]).
+  split; [|done]. split; [cbn; lia|]. split; [exact I2|]. cbn [L2.push_withdrawal L2.wlog].
+  apply Forall_cons. split.
+  - split; cbn; auto; [eapply I2; eauto|lia].
+  - eapply Forall_impl; [exact I3|]. intros w'. by apply wrec_fields_ext.
+Qed.
+
+Lemma withdraw_inv c s sender to d amt s' r :
+  L2.resolve c [] = None → L2.withdraw c s sender to d amt = Some (s', r) → inv c s → inv c s' ∧ ext s s'.
+Proof.
+  intros Hnil Hh Hinv. pose proof (withdraw_bound _ _ _ _ _ _ _ _ Hh) as Hb.
+  apply withdraw_Some in Hh as (a & b1' & b2' & base & Ha & Hto & Hd & Hamt & _ & _ & Hbase & _ & ->).
+  destruct (inv_frame c s (L2.set_bk s b2') eq_refl eq_refl eq_refl Hinv) as [I1 E1].
+  assert (Hfr : sender ≠ []) by (intros ->; congruence).
+  assert (Hu : false = false → (0 < amt)%Z ∧ is_Some (L2.resolve c sender))
+    by (intros _; split; [lia|rewrite Ha; eauto]).
+  assert (Har : (0 ≤ amt < two64)%Z) by lia.
+  destruct (inv_push c (L2.set_bk s b2')
+              {| L2.w_seq := L2.next_l2 s; L2.w_from := sender; L2.w_to := to; L2.w_denom := d;
+                 L2.w_base := base; L2.w_amt := amt; L2.w_refund := false |} I1 eq_refl Hfr Hto Hd Hbase Har Hu)
+    as [I2 E2].
+  split; [exact I2|]. exact (ext_trans _ _ _ E1 E2).
+Qed.
+
+Lemma hook_msg_inv c s signer m s' :
+  L2.resolve c [] = None → L2.hook_msg c s signer m = Some s' → inv c s → inv c s' ∧ ext s s'.
+Proof.
+  intros Hnil. destruct m as [to d amt|sender to d amt]; cbn [L2.hook_msg].
+  - intros Hx. apply bind_Some in Hx as (b & _ & [= <-]). by apply inv_frame.
+  - destruct (negb _); [discriminate|]. intros Hx. apply bind_Some in Hx as ([s1 r1] & Hw & [= <-]).
+    eapply withdraw_inv; eauto.
+Qed.
+
+Lemma hook_fold_inv c signer msgs : ∀ s s',
+  L2.resolve c [] = None →
+  foldl (λ os m, s ← os; L2.hook_msg c s signer m) (Some s) msgs = Some s' → inv c s → inv c s' ∧ ext s s'.
+Proof.
+  induction msgs as [|m msgs IH]; intros s s' Hnil; cbn [foldl].
+  - intros [= <-] I. split; [done|apply ext_refl].
+  - cbn [mbind option_bind]. destruct (L2.hook_msg c s signer m) as [s1|] eqn:E.
+    + intros Hx I. destruct (hook_msg_inv _ _ _ _ _ Hnil E I) as [I1 E1].
+      destruct (IH _ _ Hnil Hx I1) as [I2 E2]. split; [exact I2|]. exact (ext_trans _ _ _ E1 E2).
+    + rewrite hook_fold_None. discriminate.
+Qed.
+
+Lemma run_hook_inv c s h s1 ok :
+  L2.resolve c [] = None → L2.run_hook c s h = (s1, ok) → inv c s → inv c s1 ∧ ext s s1.
+Proof.
+  intros Hnil. unfold L2.run_hook. destruct h as [| |signer tseq sig_ok msgs].
+  - intros [= <- <-] I. split; [done|apply ext_refl].
+  - intros [= <- <-] I. split; [done|apply ext_refl].
+  - destruct (_ <? _)%N. { intros [= <- <-] I. split; [done|apply ext_refl]. }
+    destruct (negb _). { intros [= <- <-] I. split; [done|apply ext_refl]. }
+    destruct (foldl _ _ msgs) as [s2|] eqn:Hf; intros [= <- <-] I.
+    + destruct (inv_frame c s (L2.set_seqs s (<[signer:=(L2.getseq s signer + 1)%N]> (L2.seqs s)))
+                  eq_refl eq_refl eq_refl I) as [I0 E0].
+      destruct (hook_fold_inv _ _ _ _ _ Hnil Hf I0) as [I2 E2]. split; [exact I2|]. exact (ext_trans _ _ _ E0 E2).
+    + by apply inv_frame.
+Qed.
+
+Lemma inv_pairs_insert c s d b :
+  L2.pairs s !! d = None → valid_denom b = true → inv c s →
+  inv c (L2.set_pairs s (<[d := b]> (L2.pairs s))) ∧ ext s (L2.set_pairs s (<[d := b]> (L2.pairs s))).
+Proof.
+  intros Hn Hb (I1 & I2 & I3).
+  assert (E : ext s (L2.set_pairs s (<[d := b]> (L2.pairs s)))).
+  { split; cbn; [|lia]. intros x y Hxy. destruct (decide (x = d)) as [->|Hne]; [congruence|].
+    by rewrite lookup_insert_ne. }
+  split; [|done]. split; [done|]. split.
+  - intros x y. cbn. destruct (decide (x = d)) as [->|Hne].
+    + rewrite lookup_insert. by intros [= <-].
+    + rewrite lookup_insert_ne by done. apply I2.
+  - cbn. eapply Forall_impl; [exact I3|]. intros w. by apply wrec_fields_ext.
+Qed.
+
+Lemma finalize_deposit_inv c s m s' r :
+  L2.resolve c [] = None → relayed_ok m →
+  L2.finalize_deposit c s m = Some (s', r) → inv c s → inv c s' ∧ ext s s'.
+Proof.
+  intros Hnil [Hto Hlt]. unfold L2.finalize_deposit.
+  destruct (L2.fdep_valid c m) eqn:Hv; [|discriminate]. cbn [negb].
+  destruct (L2.is_executor c s (L2.fd_sender m)); [|discriminate]. cbn [negb].
+  destruct (L2.fd_seq m <? L2.next_l1 s)%N. { intros [= <- <-] I. split; [done|apply ext_refl]. }
+  destruct (L2.next_l1 s <? L2.fd_seq m)%N; [discriminate|].
+  apply fdep_valid_facts in Hv as (Hfrom & Hd & Hge & Hb).
+  destruct (match L2.resolve c (L2.fd_to m) with
+            | Some a => L2.safe_deposit c s a (L2.fd_denom m) (L2.fd_amt m)
+            | None => (s, false) end) as [s1 dep_ok] eqn:Hdep.
+  assert (F1 : frame_bk s s1).
+  { destruct (L2.resolve c (L2.fd_to m)); [eapply safe_deposit_frame; eauto|].
+    injection Hdep as <- <-. apply frame_bk_refl. }
+  destruct F1 as (F1a & F1b & F1c & F1d & F1e & F1f & F1g & F1h & F1i).
+  intros Hrest I.
+  destruct (inv_frame c s s1 F1c F1h F1b I) as [I1 E1].
+  set (s2 := L2.set_next_l1 s1 (L2.next_l1 s1 + 1)) in *.
+  destruct (inv_frame c s1 s2 eq_refl eq_refl eq_refl I1) as [I2 E2].
+  set (s3 := match L2.pairs s2 !! L2.fd_denom m with
+             | Some _ => s2
+             | None => L2.set_pairs s2 (<[L2.fd_denom m:=L2.fd_base m]> (L2.pairs s2)) end) in *.
+  assert (I3 : inv c s3 ∧ ext s2 s3).
+  { subst s3. destruct (L2.pairs s2 !! L2.fd_denom m) eqn:E; [split; [done|apply ext_refl]|].
+    by apply inv_pairs_insert. }
+  destruct I3 as [I3 E3].
+  destruct (if dep_ok && L2.hook_nonempty (L2.fd_hook m) then L2.run_hook c s3 (L2.fd_hook m) else (s3, true))
+    as [s4 hook_ok] eqn:Hhook.
+  assert (I4 : inv c s4 ∧ ext s3 s4).
+  { destruct (dep_ok && L2.hook_nonempty (L2.fd_hook m)); [eapply run_hook_inv; eauto|].
+    injection Hhook as <- <-. split; [done|apply ext_refl]. }
+  destruct I4 as [I4 E4].
+  assert (E04 : ext s s4) by exact (ext_trans _ _ _ E1 (ext_trans _ _ _ E2 (ext_trans _ _ _ E3 E4))).
+  destruct (dep_ok && hook_ok).
+  { injection Hrest as <- <-. destruct (inv_frame c s4 (L2.push_deposit s4
+        {| L2.d_seq := L2.fd_seq m; L2.d_to := L2.fd_to m; L2.d_denom := L2.fd_denom m;
+           L2.d_amt := L2.fd_amt m; L2.d_ok := true |}) eq_refl eq_refl eq_refl I4) as [I5 E5].
+    split; [exact I5|]. exact (ext_trans _ _ _ E04 E5). }
+  apply bind_Some in Hrest as (s5 & Hs5 & Hrest).
+  apply bind_Some in Hrest as (base & Hbase & Hrest). injection Hrest as <- <-.
+  assert (F5 : frame_bk s4 s5).
+  { destruct dep_ok; [|injection Hs5 as <-; apply frame_bk_refl].
+    apply bind_Some in Hs5 as (a & _ & Hs5). apply bind_Some in Hs5 as (b1 & _ & Hs5).
+    apply bind_Some in Hs5 as (b2 & _ & Hs5). injection Hs5 as <-. apply frame_bk_set. }
+  destruct F5 as (F5a & F5b & F5c & F5d & F5e & F5f & F5g & F5h & F5i).
+  destruct (inv_frame c s4 s5 F5c F5h F5b I4) as [I5 E5].
+  set (s6 := L2.push_deposit s5 {| L2.d_seq := L2.fd_seq m; L2.d_to := L2.fd_to m; L2.d_denom := L2.fd_denom m;
+                                   L2.d_amt := L2.fd_amt m; L2.d_ok := false |}).
+  destruct (inv_frame c s5 s6 eq_refl eq_refl eq_refl I5) as [I6 E6].
+  assert (Hpb : L2.pairs s6 !! L2.fd_denom m = Some base) by exact Hbase.
+  assert (Har : (0 ≤ L2.fd_amt m < two64)%Z) by lia.
+  assert (Hu : true = false → (0 < L2.fd_amt m)%Z ∧ is_Some (L2.resolve c (L2.fd_to m))) by discriminate.
+  destruct (inv_push c s6 {| L2.w_seq := L2.next_l2 s5; L2.w_from := L2.fd_to m; L2.w_to := L2.fd_from m;
+                             L2.w_denom := L2.fd_denom m; L2.w_base := base; L2.w_amt := L2.fd_amt m;
+                             L2.w_refund := true |} I6 eq_refl Hto Hfrom Hd Hpb Har Hu) as [I7 E7].
+  split; [exact I7|]. exact (ext_trans _ _ _ E04 (ext_trans _ _ _ E5 (ext_trans _ _ _ E6 E7))).
+Qed.
+
 Lemma handle_inv m : ∀ c s s' r,
   L2.resolve c [] = None → faithful m → L2.handle c s m = Some (s', r) →
   inv c s → inv c s' ∧ ext s s'.
@@ -205,42 +285,9 @@ Proof.
   induction m as [f|w1 w2 w3 w4|b1 b2 b3 b4|i1 i2|u1 u2|v1 v2 v3|r1 r2|p1 p2 p3|sender inner IH] using msg_ind';
     intros c s s' r Hnil Hf; [cbn [L2.handle]..|].
   - (* deposit *)
-    intros Hh Hinv. cbn [faithful] in Hf. destruct Hf as [Hto Hlt].
-    apply finalize_deposit_pairs in Hh as (Hv & [(-> & ->)|(Hp & Hw)]).
-    { split; [done|apply ext_refl]. }
-    apply fdep_valid_facts in Hv as (Hfrom & Hd & Hge & Hb).
-    destruct Hinv as (I1 & I2 & I3).
-    assert (Hsub : ∀ d b, L2.pairs s !! d = Some b → L2.pairs s' !! d = Some b).
-    { intros d b Hdb. rewrite Hp. destruct (L2.pairs s !! L2.fd_denom f) eqn:E; [done|].
-      destruct (decide (d = L2.fd_denom f)) as [->|Hne]; [congruence|]. by rewrite lookup_insert_ne. }
-    assert (Hpv : pairs_valid s').
-    { intros d b. rewrite Hp. destruct (L2.pairs s !! L2.fd_denom f) eqn:E; [apply I2|].
-      destruct (decide (d = L2.fd_denom f)) as [->|Hne].
-      - rewrite lookup_insert. intros [= <-]. done.
-      - rewrite lookup_insert_ne by done. apply I2. }
-    destruct Hw as [(Hw & Hn)|(base & Hbase & Hn & Hw)].
-    + assert (E : ext s s') by (split; [done|lia]).
-      split; [|done]. split; [lia|]. split; [done|]. rewrite Hw.
-      eapply Forall_impl; [exact I3|]. intros w. by apply wrec_fields_ext.
-    + assert (E : ext s s') by (split; [done|lia]).
-      split; [|done]. split; [lia|]. split; [done|]. rewrite Hw.
-      apply Forall_cons. split.
-      * split; cbn; try done; try lia. eapply Hpv; eauto.
-      * eapply Forall_impl; [exact I3|]. intros w. by apply wrec_fields_ext.
+    intros Hh Hinv. cbn [faithful] in Hf. eapply finalize_deposit_inv; eauto.
   - (* user withdrawal *)
-    intros Hh Hinv. pose proof (withdraw_bound _ _ _ _ _ _ _ _ Hh) as Hb.
-    apply withdraw_Some in Hh as (a & b1' & b2' & base & Ha & Hto & Hd & Hamt & _ & _ & Hbase & _ & ->).
-    destruct Hinv as (I1 & I2 & I3).
-    assert (E : ext s (L2.push_withdrawal (L2.set_bk s b2')
-                  {| L2.w_seq := L2.next_l2 s; L2.w_from := w1; L2.w_to := w2; L2.w_denom := w3;
-                     L2.w_base := base; L2.w_amt := w4; L2.w_refund := false |})).
-    { split; cbn; [auto|lia]. }
-    split; [|done]. split; [cbn; lia|]. split; [exact I2|]. cbn [L2.push_withdrawal L2.wlog].
-    apply Forall_cons. split.
-    + split; cbn; try done; try lia.
-      * intros ->. congruence.
-      * eapply I2; eauto.
-    + eapply Forall_impl; [exact I3|]. intros w. by apply wrec_fields_ext.
+    intros Hh Hinv. eapply withdraw_inv; eauto.
   - intros Hh. apply bank_send_msg_Some in Hh as (? & -> & _). by apply inv_frame.
   - intros Hh. apply set_bridge_info_Some in Hh as (_&_&_&->&_). by apply inv_frame.
   - intros Hh. apply update_params_Some in Hh as (_&_&->&_). by apply inv_frame.
